@@ -87,6 +87,13 @@ def check(p, banner, kex, inp):
     for e in errs:
         if e['mismatched_field'] not in text or not all(k in e for k in ('expected_required', 'expected_optional', 'actual')):
             fail(inp, e, 'each error names its field with expected and actual values', 'error-shape')
+        # the error shows the peer's values as sent (order and repetitions included)
+        if kex is not None:
+            sent = {'Key exchanges': kex.kex_algorithms, 'Host keys': kex.key_algorithms, 'Ciphers': kex.server.encryption, 'MACs': kex.server.mac}.get(e['mismatched_field'])
+            if sent is not None and list(e['actual']) != list(sent):
+                fail(inp, {'field': e['mismatched_field'], 'actual in the error': e['actual']}, {'as sent': sent}, 'error-actual')
+            if sent is not None and ('Actual:   ' + ', '.join(sent)) not in text and ', '.join(sent) not in text:
+                fail(inp, {'field': e['mismatched_field'], 'text': text[-300:]}, {'as sent': sent}, 'error-actual-text')
     return ok
 banner = Banner.parse('SSH-2.0-OpenSSH_9.9')
 # 1. list fields, exhaustively over the small universe: policy lists x peer lists x flags (host keys with optional lists)
@@ -96,7 +103,7 @@ for sub in (False, True):
         for act in peer_lists(3):
             kex = H.make_kex(act, ['a'], ['a'], ['a'])
             check(mk_policy(kex=pol, subset=sub), banner, kex, {'field': 'kex', 'policy': pol, 'peer': act, 'subset': sub})
-            kex = H.make_kex(['a'], ['a'], act, list(reversed(act)))
+            kex = H.make_kex(['a'], ['a'], act, list(reversed(act)), cli_enc=['c2s-x'], cli_mac=['c2s-y', 'a'])
             check(mk_policy(ciphers=pol, macs=pol, subset=sub), banner, kex, {'field': 'ciphers+macs', 'policy': pol, 'peer': act, 'subset': sub})
     for pol in lists(2):
         for opt in (None, [], ['b'], ['a', 'b']):
@@ -167,7 +174,8 @@ peers = [
  dict(kex=['k1', 'k2', 'k3', 'k1'], key=['h1', 'h2'], enc=['c1', 'c2', 'c3'], mac=['m1', 'm2'], sizes={'h1': (4096, 'ssh-ed25519', 256)}, dh={'k2': 2048, 'k3': 4096}),
 ]
 def build(p):
-    kex = H.make_kex(p['kex'], p['key'], p['enc'], p['mac'])
+    # (the client-to-server lists differ from the server-to-client ones: policies are made from, and compared with, the latter)
+    kex = H.make_kex(p['kex'], p['key'], p['enc'], p['mac'], cli_enc=['c2s-' + x for x in reversed(p['enc'])] + ['c2s-extra'], cli_mac=['c2s-only-mac'])
     for t, (sz, cat, cas) in p['sizes'].items():
         kex.set_host_key(t, b'rawbytes', sz, cat, cas)
     for g, sz in p['dh'].items():
